@@ -23,6 +23,45 @@ type divPair struct {
 var divPairs = []divPair{
 	{"fair", divider.Fair, p1.FairDivider},
 	{"rate", divider.Rate, p1.RateDivider},
+	{"lowfirst", lowFirst2, lowFirst1},
+	{"quota", quota2, quota1},
+}
+
+// quota: a divider that does NOT conserve the dividend (Lean: Cqos.quota) - every listed priority
+// gets `dividend` units.  The helpers are defined by what the divider gives, not by what a
+// well-behaved divider would give (C18 speaks of "the divider").
+func quota2(ps []uint, d uint, m map[uint]uint) {
+	for _, p := range ps {
+		m[p] += d
+	}
+}
+
+func quota1(ps []uint, d uint, m map[uint]uint) map[uint]uint {
+	if m == nil {
+		m = map[uint]uint{}
+	}
+	quota2(ps, d, m)
+	return m
+}
+
+// lowFirst: a contract-abiding custom divider (Lean: Cqos.lowfirst) - one unit to the LOWEST listed
+// priority, the rest as Fair.  It conserves the dividend but can leave a priority that is not the
+// lowest with nothing ([3 2 1], 2 handlers: 3:1 2:0 1:1), which the library's own dividers never do:
+// the helpers and the v2 constructor must judge such a distribution by every listed priority.
+func lowFirst2(ps []uint, d uint, m map[uint]uint) {
+	if len(ps) == 0 || d == 0 {
+		return
+	}
+	m[ps[len(ps)-1]]++
+	divider.Fair(ps, d-1, m)
+}
+
+func lowFirst1(ps []uint, d uint, m map[uint]uint) map[uint]uint {
+	if m == nil {
+		m = map[uint]uint{}
+	}
+	lowFirst2(ps, d, m)
+	return m
 }
 
 // definitionNonFatal is the definition in property C18, computed independently of the
@@ -96,7 +135,9 @@ func caseUtils(w *px.Writer, class string, ps []uint, q uint, mx uint, la uint, 
 				rep = fmt.Sprintf("ok %s %s", px.List(prios), px.MapNZ(strategic))
 			}
 			w.Case(class+":prepare", nontrivial, fmt.Sprintf("prepare %s %s %d", dp.name, px.List(ps), q), rep)
-			if nf2 && err != nil {
+			// (a divider that does not conserve the dividend is rejected as faulty whatever the
+			// helpers say - C15; the clause "non-fatal => accepted" is about contract-abiding dividers)
+			if nf2 && err != nil && dp.name != "quota" {
 				w.Fail("C18 non-fatal but rejected: %s ps=%s q=%d : %v", dp.name, px.List(ps), q, err)
 			}
 			if err == nil {
@@ -263,6 +304,15 @@ func familyC18(w *px.Writer, r *rand.Rand, thorough bool) {
 		}
 	}
 	caseUtils(w, "empty", nil, 3, 5, 10, 1)
+
+	// repeated priority values (the helpers take a slice): fewer handlers than entries can still
+	// give every member of every subset a unit
+	for _, ps := range [][]uint{{2, 2}, {3, 3, 1}, {5, 2, 2}, {4, 4, 4}, {7, 7, 3, 3}} {
+		for q := uint(0); q <= 6; q++ {
+			l := limits[int(q)%len(limits)]
+			caseUtils(w, "repeated", ps, q, q+3, l[0], l[1])
+		}
+	}
 
 	// boundary maxima for the PickUp functions: max just below / at / just above the
 	// true least (and greatest) satisfying quantity, found by scanning the definition
